@@ -374,6 +374,17 @@ def r6_memoised_results(ctx):
     ctx.floor("memoised functions examined", n, 7)
 
 
+
+def _compaction_state(ctx):
+    from .c04 import r2_aligned_stores      # writing a selection compacts the extractor in place: every table must end up consistent with the new buffer
+    r2_aligned_stores(ctx)
+
+
+def _copies_copy(ctx):
+    from .c07 import r2_operands_encoded    # copy() really copies (str_to_int & co. rely on it before they overwrite characters)
+    r2_operands_encoded(ctx)
+
+
 RULES = [
     ("C20-R1", r1_param_mutators),
     ("C20-R2", r2_private_mutator_call_sites),
@@ -381,4 +392,6 @@ RULES = [
     ("C20-R4", r4_cow_views_and_dead_writers),
     ("C20-R5", r5_table_derivations),
     ("C20-R6", r6_memoised_results),
+    ("C20-R7", _compaction_state),
+    ("C20-R8", _copies_copy),
 ]
